@@ -90,7 +90,7 @@ def run(res, replay=None):
                         res.oracle_failures.append(("\n".join(db.log[-30:]), "engine stopped answering: " + db.dead))
                         break
                     if before != after and len(res.oracle_failures) < 5:
-                        res.oracle_failures.append(("# session:\n" + "\n".join(db.log[-200:]),
+                        res.oracle_failures.append(("# session:\n" + "\n".join(db.log[-4000:]),
                                                     "statement leaves frames pinned: %s (plan %s, outcome %s): pins before %s | after %s" % (sql[:120], shape, outcome, before, after)))
                 if db.dead:
                     break
